@@ -679,6 +679,74 @@ def case_sort_api(ctx, inp):
         ctx.fail(f"{op} raised: " + U.exc_name(e), sig=None, observed=U.exc_name(e))
 
 
+def case_sort_history(ctx, inp):
+    """HISTORY / JOINT: a sequence of sort_values / set_index calls on ONE frame in one process (module-level caches such
+    as divisions_lru are shared between the calls), each observed on its REAL partitions, then all results together in one
+    graph. Every step must be globally ordered in ITS direction, keep exactly the input rows and (set_index) be truthful —
+    whatever was asked of the same frame before."""
+    import dask
+    import pandas as pd
+    dd = U.dd()
+    keys, cuts = inp["keys"], inp["cuts"]
+    df, d = _keyframe_cuts(keys, cuts)
+    before = df.copy()
+    results = []
+    with dask.config.set(scheduler="sync"):
+        for step in inp["steps"]:
+            op = step["op"]
+            kw = {"npartitions": step["n_out"]} if step.get("n_out") else {}
+            if step.get("method"):
+                kw["shuffle_method"] = step["method"]
+            try:
+                if op == "sort_values":
+                    r = d.sort_values("k", ascending=step["ascending"], **kw)
+                    parts = U.partitions(r)
+                    got = pd.concat(parts) if parts else df.iloc[:0]
+                    exp = df.sort_values("k", ascending=step["ascending"], kind="stable")
+                    if list(got.k) != list(exp.k):
+                        ctx.fail("sort_values after other calls on the same frame is not globally ordered",
+                                 observed=[inp["steps"], step, [list(p.k) for p in parts]], expected=list(exp.k)[:40])
+                    if sorted(got.v) != list(range(len(df))):
+                        ctx.fail("sort_values after other calls on the same frame does not keep the rows", observed=sorted(got.v)[:40])
+                else:
+                    r = d.set_index("k", **kw)
+                    divs = list(r.divisions)
+                    parts = U.partitions(r)
+                    got = pd.concat(parts) if parts else df.iloc[:0]
+                    if list(got.index) != sorted(df.k):
+                        ctx.fail("set_index after other calls on the same frame is not globally ordered",
+                                 observed=[inp["steps"], [list(p.index) for p in parts]], expected=sorted(df.k)[:40])
+                    if sorted(got.v) != list(range(len(df))):
+                        ctx.fail("set_index after other calls on the same frame does not keep the rows", observed=sorted(got.v)[:40])
+                    if divs[0] is not None and not any(x != x for x in divs):
+                        why = U.truthful(divs, parts)
+                        if why:
+                            ctx.fail("set_index after other calls on the same frame: divisions not truthful: " + why,
+                                     observed=[inp["steps"], divs, [list(p.index) for p in parts]])
+                results.append((step, r))
+            except Exception as e:  # noqa: BLE001
+                ctx.fail(f"{op} in a history of calls raised: " + U.exc_name(e), observed=[inp["steps"], U.exc_name(e)])
+                return
+        # all of them in one graph
+        if len(results) > 1:
+            try:
+                outs = dask.compute(*[r for _, r in results])
+            except Exception as e:  # noqa: BLE001
+                ctx.fail("joint compute of several sorts of one frame raised: " + U.exc_name(e), observed=U.exc_name(e))
+                return
+            for (step, _), o in zip(results, outs):
+                if step["op"] == "sort_values":
+                    if list(o.k) != sorted(df.k, reverse=not step["ascending"]) or sorted(o.v) != list(range(len(df))):
+                        ctx.fail("sort_values computed together with other results of the same frame is wrong",
+                                 observed=[step, list(o.k)[:40]])
+                elif list(o.index) != sorted(df.k) or sorted(o.v) != list(range(len(df))):
+                    ctx.fail("set_index computed together with other results of the same frame is wrong", observed=[step, list(o.index)[:40]])
+    if not df.equals(before):
+        ctx.fail("the pandas source frame was modified by sort_values / set_index", observed=str(df)[:200])
+    dirs = "".join(("A" if s["ascending"] else "D") if s["op"] == "sort_values" else "I" for s in inp["steps"])
+    ctx.branch("history-" + dirs[:4] + ("-ordered-" + inp["order"] if inp.get("order") else ""))
+
+
 def case_dedup_api(ctx, inp):
     """API level: drop_duplicates / unique / nunique equal pandas for every partitioning, split_out, shuffle method"""
     import dask
@@ -734,7 +802,7 @@ def case_dedup_api(ctx, inp):
     ctx.branch(f"{op}-split{so}-{method or 'default'}")
 
 
-CASES = {"shuffle_group": case_shuffle_group, "task_layer": case_task_layer, "spp": case_spp,
+CASES = {"sort_history": case_sort_history, "shuffle_group": case_shuffle_group, "task_layer": case_task_layer, "spp": case_spp,
          "shuffle_api": case_shuffle_api, "task_expr": case_task_expr, "presorted_fn": case_presorted_fn,
          "sort_model": case_sort_model, "dedup_fn": case_dedup_fn, "dedup_model": case_dedup_model,
          "sort_api": case_sort_api, "dedup_api": case_dedup_api}
@@ -977,6 +1045,52 @@ def _gen_sort_presorted_api(ctx):
                            "by": rng.choice([["k"], ["k", "k3"]]), "method": rng.choice([None, "tasks"])}
 
 
+def _gen_sort_history(ctx):
+    rng = ctx.rng
+    # one frame, several calls: the key column is (often) strictly ordered ACROSS the partitions in one direction, so that
+    # one direction takes the presorted shortcut and the other must shuffle
+    for _ in range(ctx.n(40, 600)):
+        nparts = rng.randint(2, 5)
+        order = rng.choice(["asc", "asc", "desc", "desc", "none"])
+        blocks, lo = [], 0
+        for _b in range(nparts):
+            m = rng.randint(1, 5)
+            vals = [lo + rng.randint(0, 6) for _ in range(m)]
+            lo = max(vals) + rng.randint(1, 3)
+            vals.sort(reverse=(order == "desc"))
+            if rng.random() < 0.3:
+                rng.shuffle(vals)
+            blocks.append(vals)
+        if order == "desc":
+            blocks.reverse()
+        if order == "none":
+            flat = [v for b in blocks for v in b]
+            rng.shuffle(flat)
+            sizes = [len(b) for b in blocks]
+            blocks, pos = [], 0
+            for m in sizes:
+                blocks.append(flat[pos:pos + m])
+                pos += m
+        keys = [v for b in blocks for v in b]
+        cuts = [0]
+        for b in blocks:
+            cuts.append(cuts[-1] + len(b))
+        steps = []
+        for _k in range(rng.choice([2, 2, 3, 4])):
+            if rng.random() < 0.7:
+                steps.append({"op": "sort_values", "ascending": rng.random() < 0.5})
+            else:
+                steps.append({"op": "set_index"})
+            if rng.random() < 0.25:
+                steps[-1]["n_out"] = rng.randint(1, 5)
+            if rng.random() < 0.3:
+                steps[-1]["method"] = "tasks"
+        # make sure both directions occur often
+        if rng.random() < 0.6 and steps[0]["op"] == "sort_values":
+            steps[1] = {"op": "sort_values", "ascending": not steps[0]["ascending"]}
+        yield "sort_history", {"keys": keys, "cuts": cuts, "steps": steps, "order": order}
+
+
 def _gen_dedup_api(ctx):
     rng = ctx.rng
     for _ in range(ctx.n(50, 600)):
@@ -996,4 +1110,4 @@ def generate(ctx):
                             (_gen_shuffle_api(ctx), 2),
                             (_gen_task_expr(ctx), 1), (_gen_presorted(ctx), 1), (_gen_sort_model(ctx), 1),
                             (_gen_dedup_fn(ctx), 20 if t else 3), (_gen_dedup_model(ctx), 1), (_gen_sort_api(ctx), 1),
-                            (_gen_sort_presorted_api(ctx), 1), (_gen_dedup_api(ctx), 1)])
+                            (_gen_sort_presorted_api(ctx), 1), (_gen_dedup_api(ctx), 1), (_gen_sort_history(ctx), 1)])
